@@ -154,6 +154,17 @@ def l_c04_bimaps(conv: Converter, p: str, u: str):
 def l_c04_validators(p: str, u: str, ps: list, us: list):
     """A record can never list its own canonical prefix / URI prefix among its synonyms."""
     bad = p in ps or u in us
+    # ... whichever way the record enters a converter: as a dict through the extended-prefix-map loader,
+    for loader_ in (Converter.from_extended_prefix_map, lambda recs: Converter.from_extended_prefix_map(recs, strict=False)):
+        try:
+            c = loader_([dict(prefix=p, uri_prefix=u, prefix_synonyms=list(ps), uri_prefix_synonyms=list(us))])
+            loaded = True
+        except ValueError:
+            loaded = False
+        assert loaded == (not bad)
+        if loaded:
+            assert all(RecInv(r) for r in c.records)
+    # ... or constructed directly
     try:
         r = Record(prefix=p, uri_prefix=u, prefix_synonyms=ps, uri_prefix_synonyms=us)
     except ValueError:
